@@ -1,13 +1,11 @@
-(* GenOrderProofs.v — the call-order obligations hold on the skeletons regenerated from /repo. *)
+(* GenOrderProofs.v — a call-order obligation that the computation accepts holds for every trace (generic part).
+   The computation itself is run per property in GenOrderC07.v, GenOrderC10.v, ...: a rule of one property that fails on
+   a changed tree breaks only that property's file. *)
 From Coq Require Import NArith List Bool String.
 From SigM Require Import LockTrace CallOrder.
 From SigG Require Import GenOrder.
 From SigP Require Import CallOrderProofs GenOrderCheck.
 Import ListNotations.
-
-(* the computation: no rule has a problem on the current skeletons *)
-Theorem co_all_checked : co_all_ok = true.
-Proof. vm_compute. reflexivity. Qed.
 
 Lemma filter_nil_all : forall (A : Type) (f : A -> bool) (l : list A),
   filter f l = [] -> forall x, In x l -> f x = false.
@@ -62,39 +60,14 @@ Proof.
     exact (never_checked b s Em).
 Qed.
 
-Theorem co_rules_hold : forall r, In r co_rules -> rule_holds r.
-Proof.
-  intros r Hin. apply check_rule_nil.
-  pose proof co_all_checked as Hok. unfold co_all_ok in Hok.
-  destruct co_report as [|x l] eqn:Er; [|discriminate Hok].
-  unfold co_report in Er.
-  pose proof (filter_nil_all _ _ _ Er (r_id r, check_rule r)) as Hf.
-  assert (Hin' : In (r_id r, check_rule r) (map (fun r0 => (r_id r0, check_rule r0)) co_rules)).
-  { apply in_map_iff. exists r. split; [reflexivity | exact Hin]. }
-  specialize (Hf Hin'). cbn [snd] in Hf.
-  destruct (check_rule r); [reflexivity | discriminate Hf].
-Qed.
-Print Assumptions co_rules_hold.
+(* a list of rules that the computation accepts holds rule by rule *)
+Definition rules_ok (l : list rule) : bool :=
+  forallb (fun r => match check_rule r with [] => true | _ => false end) l.
 
-(* the rules by property (what props/C07.v, C10.v, C11.v, C13.v, C19.v cite) *)
-Lemma in_co_rules : forall r, In r c07_rules \/ In r c10_rules \/ In r c11_rules \/ In r c13_rules \/ In r c19_rules \/ In r c20_rules -> In r co_rules.
+Theorem rules_ok_hold : forall l, rules_ok l = true -> forall r, In r l -> rule_holds r.
 Proof.
-  intros r H. unfold co_rules. repeat rewrite in_app_iff. tauto.
+  intros l H r Hin. apply check_rule_nil.
+  unfold rules_ok in H. rewrite forallb_forall in H. specialize (H r Hin).
+  destruct (check_rule r); [reflexivity | discriminate H].
 Qed.
-Theorem co_C07_rules_hold : forall r, In r c07_rules -> rule_holds r.
-Proof. intros r H. apply co_rules_hold, in_co_rules. tauto. Qed.
-Theorem co_C10_rules_hold : forall r, In r c10_rules -> rule_holds r.
-Proof. intros r H. apply co_rules_hold, in_co_rules. tauto. Qed.
-Theorem co_C11_rules_hold : forall r, In r c11_rules -> rule_holds r.
-Proof. intros r H. apply co_rules_hold, in_co_rules. tauto. Qed.
-Theorem co_C13_rules_hold : forall r, In r c13_rules -> rule_holds r.
-Proof. intros r H. apply co_rules_hold, in_co_rules. tauto. Qed.
-Theorem co_C19_rules_hold : forall r, In r c19_rules -> rule_holds r.
-Proof. intros r H. apply co_rules_hold, in_co_rules. tauto. Qed.
-Theorem co_C20_rules_hold : forall r, In r c20_rules -> rule_holds r.
-Proof. intros r H. apply co_rules_hold, in_co_rules. tauto. Qed.
-
-(* non-vacuity: each property has rules *)
-Example rules_counts : List.length c07_rules = 5%nat /\ List.length c10_rules = 5%nat /\ List.length c11_rules = 1%nat
-  /\ List.length c13_rules = 3%nat /\ List.length c19_rules = 10%nat /\ List.length c20_rules = 4%nat.
-Proof. vm_compute. repeat split. Qed.
+Print Assumptions rules_ok_hold.
